@@ -195,6 +195,10 @@ def run(ctx):
             r413 = [r for r in cp.returns() if cp.contains(body, r) and cp.const_value(cp.ret_value(r)) == 413]
             ok = ok and len(r413) == 1 and cp.only_through(r413[0], gf)
         ctx.check(ok, R3, 'on_content_progress:%s:size-checked' % nm, 'field size limit is not enforced on the %s edge' % nm, cp.loc(c))
+        for i in so:
+            lim = [q.short_of(cp.bcallee(j) or cp.callee(j) or '') for j in q.expr_calls_deep(cp, cp.args(i)[1])]
+            ctx.check('content_length_limit' in lim and 'multipart_form_data_limit' not in lim, R3, 'on_content_progress:%s:limit-is-content_length_limit' % nm,
+                      'an in-memory form field is measured against %s instead of security.content_length_limit (the whole body was already admitted under the multipart limit: the field check can never fire)' % (lim or 'nothing'), cp.loc(i))
     szok = P.fn(RQ + '::size_ok')
     g = szok.gate_edges(lambda atom, pol: szok.N(atom)['k'] == 'BinaryOperator' and szok.N(atom).get('op') == '>' and any(q.short_of(szok.callee(j)) == 'size' for j in szok.calls(szok.N(atom)['ch'][0])) and pol is False)
     gm = q.call_gate(szok, lambda i: q.short_of(szok.callee(i)) == 'has_mime', True)
